@@ -1,6 +1,7 @@
 import AdaVerif.Model.ParseSpecial
 import AdaVerif.Lemmas.SimpleAbs
 import AdaVerif.Lemmas.HostSetter
+import AdaVerif.Lemmas.Bracket
 import AdaVerif.Lemmas.Protocol
 /-
 `parse_url_impl<ada::url>(input, nullptr)` on special non-file schemes (Model/ParseSpecial.lean) = the Standard's parser.
@@ -724,8 +725,62 @@ theorem hard_stop (sp : Bool) (T : Bytes) (hT : AuthTail sp T) : T = [] ∨ ∃ 
 theorem parseHost_nil (idna : Idna) (sp : Bool) : parseHost idna sp [] = none := by
   simp [parseHost]
 
+/-- HOST on a host text that fails the bracket condition (not special, or '[' in front): `get_host_delimiter_location` runs over
+    the delimiter, the Standard's host state stops in front of it - and both host parsers fail -/
+theorem afterAuthority_dirty (idna : Idna) (sp : Bool) (scheme : Bytes) (hsp : isSpecialScheme scheme = sp) (cr : Cred)
+    (hp T : Bytes) (frag : Option Bytes) (hid : ∀ d, HP.IdnaAt idna d)
+    (hhp : AuthBytes sp hp) (hT : AuthTail sp T)
+    (hdirty : HS.bracketClean sp false (hp ++ T) = false) (hok : sp = false ∨ (hp ++ T).head? = some 0x5B) :
+    afterAuthority idna sp (getSchemeType scheme) scheme frag (hp ++ T) cr = .invalid ∧ parseHostPort idna scheme hp = none := by
+  obtain ⟨e1, e2, e3⟩ := BR.hostEnd_dirty sp hp T false 0 hhp hT hdirty
+  have hmem := e2 rfl
+  have hne : hp ≠ [] := by intro e; rw [e] at hmem; cases hmem
+  have hhead : (hp ++ T).head? = hp.head? := by
+    cases hp with
+    | nil => exact absurd rfl hne
+    | cons c r => rfl
+  have hop : (!sp) = true ∨ hp.head? = some 0x5B := by
+    rcases hok with e | e
+    · exact Or.inl (by simp [e])
+    · exact Or.inr (by rw [← hhead]; exact e)
+  constructor
+  · obtain ⟨pre, d, post, g1, g2, g3⟩ := BR.gScan_dirty sp (hp ++ T) false 0 hdirty
+    have hpm := g3 rfl
+    have hpre : pre.head? = (hp ++ T).head? := by
+      have hv : hp ++ T = (pre ++ d :: post) ++ (hp ++ T).drop ((gScan sp false (hp ++ T) 0).1 - 0) := by
+        rw [← g1]; exact (List.take_append_drop _ _).symm
+      rw [hv]
+      cases pre with
+      | nil => cases hpm
+      | cons c r => rfl
+    have hop' : (!sp) = true ∨ pre.head? = some 0x5B := by
+      rcases hop with e | e
+      · exact Or.inl e
+      · exact Or.inr (by rw [hpre, hhead]; exact e)
+    have hfail := BR.hostParse_over idna sp pre post d (!sp) hpm g2 hop'
+    unfold afterAuthority
+    unfold getHostDelimiterLocation
+    generalize hg : gScan sp false (hp ++ T) 0 = g at g1
+    obtain ⟨loc, colon⟩ := g
+    simp only [Nat.sub_zero] at g1
+    simp only
+    have hvne : pre ++ d :: post ≠ [] := by simp
+    have hph : parseHost idna sp ((hp ++ T).take loc) = none := by
+      rw [g1, HP.parseHost_eq idna sp _ hvne (hid _), hfail]; rfl
+    have hemp : ((hp ++ T).take loc).isEmpty = false := by rw [g1]; exact FS.isEmpty_false_of_ne hvne
+    cases colon with
+    | true => simp only [↓reduceIte, hph]
+    | false => simp only [Bool.false_eq_true, ↓reduceIte, hemp, hph]
+  · unfold parseHostPort
+    have he : hostEnd hp = hp.length := by
+      have : hostEnd hp = hostEnd.go hp 0 false := rfl
+      rw [this, e1]; omega
+    have hemp : hp.isEmpty = false := FS.isEmpty_false_of_ne hne
+    have := BR.hostParse_unclosed idna hp (!isSpecialScheme scheme) hmem (e3 (Or.inr hne)) (by rw [hsp]; exact hop)
+    simp only [he, Nat.lt_irrefl, ↓reduceIte, hemp, Bool.false_eq_true, this]
+
 /-- HOST and PORT = the Standard's host and port states on the text between the credentials and the authority's end -/
-theorem afterAuthority_spec (idna : Idna) (sp : Bool) (scheme : Bytes) (hsp : isSpecialScheme scheme = sp) (c : Option Bytes)
+theorem afterAuthority_spec_clean (idna : Idna) (sp : Bool) (scheme : Bytes) (hsp : isSpecialScheme scheme = sp) (c : Option Bytes)
     (hp T' : Bytes) (q frag : Option Bytes) (hid : ∀ d, HP.IdnaAt idna d)
     (hhp : AuthBytes sp hp) (hT : AuthTail sp (T' ++ qs q)) (hno : (0x3F : UInt8) ∉ T')
     (hclean : HS.bracketClean sp false (hp ++ (T' ++ qs q)) = true) :
@@ -787,6 +842,21 @@ theorem afterAuthority_spec (idna : Idna) (sp : Bool) (scheme : Bytes) (hsp : is
         simp only [Option.map_some, HP.viewH, outOf]
         exact finish_spec sp scheme hsp c T' q frag hno h none
 
+theorem afterAuthority_spec (idna : Idna) (sp : Bool) (scheme : Bytes) (hsp : isSpecialScheme scheme = sp) (c : Option Bytes)
+    (hp T' : Bytes) (q frag : Option Bytes) (hid : ∀ d, HP.IdnaAt idna d)
+    (hhp : AuthBytes sp hp) (hT : AuthTail sp (T' ++ qs q)) (hno : (0x3F : UInt8) ∉ T')
+    (hclean : BR.bracketOk sp (hp ++ (T' ++ qs q)) = true) :
+    afterAuthority idna sp (getSchemeType scheme) scheme frag (hp ++ (T' ++ qs q)) (credOf c) =
+      outOf ((parseHostPort idna scheme hp).map (specUrl scheme c T' q frag)) := by
+  by_cases hc : HS.bracketClean sp false (hp ++ (T' ++ qs q)) = true
+  · exact afterAuthority_spec_clean idna sp scheme hsp c hp T' q frag hid hhp hT hno hc
+  · have hd : HS.bracketClean sp false (hp ++ (T' ++ qs q)) = false := by simpa using hc
+    have hok : sp = false ∨ (hp ++ (T' ++ qs q)).head? = some 0x5B := by
+      simp only [BR.bracketOk, hd, Bool.false_or, Bool.or_eq_true, Bool.not_eq_true', beq_iff_eq] at hclean
+      exact hclean
+    obtain ⟨h1, h2⟩ := afterAuthority_dirty idna sp scheme hsp (credOf c) hp (T' ++ qs q) frag hid hhp hT hd hok
+    rw [h1, h2]; rfl
+
 /-- what `Spec.parse` does with query and fragment after `parseCore` -/
 def addQF (query frag : Option Bytes) (u : Url) : Url :=
   let u := match query with
@@ -806,7 +876,7 @@ theorem specUrl_addQF (scheme : Bytes) (c : Option Bytes) (T' : Bytes) (q frag :
 /-- AUTHORITY … QUERY = the Standard's authority state (and what follows it) on the same text -/
 theorem afterSlashes_spec (idna : Idna) (sp : Bool) (scheme : Bytes) (hsp : isSpecialScheme scheme = sp)
     (text : Bytes) (q frag : Option Bytes) (hid : ∀ d, HP.IdnaAt idna d) (hnoq : (0x3F : UInt8) ∉ text)
-    (hclean : ∀ v cr, authority sp (text ++ qs q) = some (v, cr) → HS.bracketClean sp false v = true) :
+    (hclean : ∀ v cr, authority sp (text ++ qs q) = some (v, cr) → AdaVerif.Lemmas.BR.bracketOk sp v = true) :
     afterSlashes idna sp (getSchemeType scheme) scheme frag (text ++ qs q) =
       outOf ((fromAuthority idna scheme text).map (addQF q frag)) := by
   unfold afterSlashes
@@ -874,7 +944,7 @@ theorem afterSlashes_spec (idna : Idna) (sp : Bool) (scheme : Bytes) (hsp : isSp
 /-- SPECIAL_AUTHORITY_SLASHES … QUERY -/
 theorem afterScheme_spec (idna : Idna) (scheme : Bytes) (hsp : isSpecialScheme scheme = true)
     (restp : Bytes) (q frag : Option Bytes) (hid : ∀ d, HP.IdnaAt idna d) (hnoq : (0x3F : UInt8) ∉ restp)
-    (hclean : ∀ v cr, authority true (skipAuthoritySlashes (restp ++ qs q)) = some (v, cr) → HS.bracketClean true false v = true) :
+    (hclean : ∀ v cr, authority true (skipAuthoritySlashes (restp ++ qs q)) = some (v, cr) → AdaVerif.Lemmas.BR.bracketOk true v = true) :
     afterScheme idna (getSchemeType scheme) scheme frag (restp ++ qs q) =
       outOf ((fromAuthority idna scheme (skipSlashes restp)).map (addQF q frag)) := by
   unfold afterScheme
@@ -1199,7 +1269,7 @@ theorem last_space_followed (input d pre scheme restp : Bytes) (query frag : Opt
 theorem afterSchemeNS_spec (idna : Idna) (scheme restp : Bytes) (query frag : Option Bytes) (hid : ∀ d, HP.IdnaAt idna d)
     (hns : isSpecialScheme scheme = false) (ht1 : getSchemeType scheme = 1) (hnoq' : (0x3F : UInt8) ∉ restp)
     (hlastAll : restp.getLast? = some 0x20 → (query.isSome || frag.isSome) = true)
-    (hclAll : ∀ r2, restp = 0x2F :: 0x2F :: r2 → ∀ v cr, authority false (r2 ++ qs query) = some (v, cr) → HS.bracketClean false false v = true) :
+    (hclAll : ∀ r2, restp = 0x2F :: 0x2F :: r2 → ∀ v cr, authority false (r2 ++ qs query) = some (v, cr) → AdaVerif.Lemmas.BR.bracketOk false v = true) :
     afterSchemeNS idna scheme frag (restp ++ qs query) =
       outOf ((nsSpec idna scheme restp (query.isSome || frag.isSome)).map (addQF query frag)) := by
   have hf := Proto.type_facts scheme
@@ -1266,7 +1336,7 @@ theorem afterSchemeNS_spec (idna : Idna) (scheme restp : Bytes) (query frag : Op
 /-- **`parse_url_impl<ada::url>(input, nullptr)` from SCHEME_START on = the Standard's basic URL parser**, for every
     input -/
 theorem machine_spec (idna : Idna) (input : Bytes) (hid : ∀ d, HP.IdnaAt idna d)
-    (hclean : HS.bracketClean (schemeSpecial input) false (hostStart input) = true) :
+    (hclean : AdaVerif.Lemmas.BR.bracketOk (schemeSpecial input) (hostStart input) = true) :
     machine idna input = outOf (parse idna input none) := by
   unfold machine
   unfold hostStart schemeSpecial at hclean
@@ -1350,7 +1420,7 @@ theorem machine_spec (idna : Idna) (input : Bytes) (hid : ∀ d, HP.IdnaAt idna 
         have hspv : (getSchemeType scheme != 1) = true := by rw [hf.1, hsp]
         simp only [h1', Bool.false_eq_true, ↓reduceIte]
         rw [hspv] at hclean
-        have hcl : ∀ v cr, authority true (skipAuthoritySlashes (restp ++ qs query)) = some (v, cr) → HS.bracketClean true false v = true := by
+        have hcl : ∀ v cr, authority true (skipAuthoritySlashes (restp ++ qs query)) = some (v, cr) → AdaVerif.Lemmas.BR.bracketOk true v = true := by
           intro v cr hv
           simp only [authText, ↓reduceIte, hv] at hclean
           exact hclean
@@ -1360,7 +1430,7 @@ theorem machine_spec (idna : Idna) (input : Bytes) (hid : ∀ d, HP.IdnaAt idna 
 
 /-- **`parse_url_impl<ada::url>(input, nullptr)` = the Standard's basic URL parser** (fast path included) -/
 theorem parseNoBase_spec (idna : Idna) (input : Bytes) (hid : ∀ d, HP.IdnaAt idna d)
-    (hclean : HS.bracketClean (schemeSpecial input) false (hostStart input) = true) :
+    (hclean : AdaVerif.Lemmas.BR.bracketOk (schemeSpecial input) (hostStart input) = true) :
     parseNoBase idna input = outOf (parse idna input none) := by
   have hm := machine_spec idna input hid hclean
   unfold parseNoBase
@@ -1442,7 +1512,8 @@ theorem authText_sub (sp : Bool) (rest text : Bytes) (h : authText sp rest = som
 
 /-- no '[' in the input: the bracket side condition holds -/
 theorem clean_of_no_bracket (input : Bytes) (h : (0x5B : UInt8) ∉ input) :
-    HS.bracketClean (schemeSpecial input) false (hostStart input) = true := by
+    AdaVerif.Lemmas.BR.bracketOk (schemeSpecial input) (hostStart input) = true := by
+  apply BR.bracketOk_of_clean
   apply clean_no_bracket
   intro hm
   apply h
